@@ -134,3 +134,74 @@ def run_suite(beh):
     except Exception as ex:  # noqa
         stop = "raises:%s" % type(ex).__name__
     return list(mod.STARTED), stop
+
+
+def run_two_problems_one_test():
+    """A stdlib unittest.TestCase whose body fails and whose tearDown raises, run by TestToolsTestRunner: one test,
+    two problems.  -> (parsed summary, number of problems the result holds)"""
+    from testtools import run
+    from . import results_rt as rt
+
+    class Twice(unittest.TestCase):
+        def test_x(self):
+            self.fail("body")
+
+        def tearDown(self):
+            raise RuntimeError("teardown")
+
+    out = io.StringIO()
+    result = run.TestToolsTestRunner(stdout=out).run(unittest.TestSuite([Twice("test_x")]))
+    return rt.parse_text_summary(out.getvalue()), len(result.errors) + len(result.failures) + len(result.unexpectedSuccesses)
+
+
+def poll_while_forwarding(scenario):
+    """Two ThreadsafeForwardingResults share a target and a semaphore.  While A is in the middle of forwarding (inside the
+    target's outcome method, semaphore held) a second thread reads B.shouldStop.  scenario 'failfast': the target has failfast
+    and A forwards a failure; 'stop-elsewhere': stop() was requested through a third forwarder before, A forwards a success.
+    Sequentially (the model) shouldStop is true in both; the concurrent reader must be told so too.
+    -> (values B read, whether B answered before A was allowed to finish)"""
+    import threading
+
+    from testtools import PlaceHolder
+    from testtools.content import text_content
+    from testtools.testresult import real
+
+    inside, go = threading.Event(), threading.Event()
+
+    class Target(real.TestResult):
+        def addFailure(self, test, err=None, details=None):
+            super().addFailure(test, err, details)
+            inside.set()
+            go.wait(10)
+
+        def addSuccess(self, test, details=None):
+            super().addSuccess(test, details=details)
+            inside.set()
+            go.wait(10)
+
+    sem = threading.Semaphore(1)
+    target = Target(failfast=(scenario == "failfast"))
+    a = real.ThreadsafeForwardingResult(target, sem)
+    b = real.ThreadsafeForwardingResult(target, sem)
+    if scenario == "stop-elsewhere":
+        real.ThreadsafeForwardingResult(target, sem).stop()
+    t = PlaceHolder("t1")
+    a.startTest(t)
+    if scenario == "failfast":
+        ta = threading.Thread(target=lambda: a.addFailure(t, details={"foo": text_content("x")}), daemon=True)
+    else:
+        ta = threading.Thread(target=lambda: a.addSuccess(t), daemon=True)
+    seen = []
+    tb = threading.Thread(target=lambda: seen.append(b.shouldStop), daemon=True)
+    ta.start()
+    try:
+        if not inside.wait(10):
+            return ["A never reached the target"], False
+        tb.start()
+        tb.join(0.3)
+        early = not tb.is_alive()
+    finally:
+        go.set()
+    ta.join(10)
+    tb.join(10)
+    return list(seen), early
